@@ -137,6 +137,19 @@ def _gen_case(rng, cls, maxn):
     elif cls == "big":
         m, n = rng.randint(maxn + 1, maxn + 4), rng.randint(maxn + 1, maxn + 4)
         S, T = _dgm(rng, m, sc), _dgm(rng, n, sc)
+    elif cls == "decimal":
+        # coordinates on a decimal grid (not exactly representable), T = S with the bars widened
+        # symmetrically: the distance equals a half-persistence difference up to one rounding
+        fam = "tol"
+        k = 1 if rng.random() < 0.7 else rng.randint(2, 3)
+        S = [[rng.randint(-30, 60) / 10.0, 0.0] for _ in range(k)]
+        for p in S:
+            p[1] = round(p[0] + rng.randint(1, 40) / 10.0, 10)
+        e = rng.choice([0.1, 0.05, 0.2, 0.3, 0.15, 0.25, 0.4])
+        T = [[p[0] - e, p[1] + e] for p in S]
+        if rng.random() < 0.5:
+            S, T = T, S
+        rng.shuffle(T)
     elif cls == "tol":
         fam = "tol"
         s = rng.choice([1.0, 1.0, 1e-3, 1e3, 1e6])
@@ -153,11 +166,11 @@ def _gen_case(rng, cls, maxn):
 
 
 CLASSES = ["generic", "generic", "generic", "empty_side", "both_empty", "repeated", "repeated", "diagonal",
-           "diagonal", "ties", "ties", "ties", "inf", "inf", "scale", "scale", "near_tie", "near_tie", "repaired", "repaired", "straddle", "permuted", "big", "tol", "tol", "tol"]
+           "diagonal", "ties", "ties", "ties", "inf", "inf", "scale", "scale", "near_tie", "near_tie", "repaired", "repaired", "straddle", "decimal", "decimal", "decimal", "decimal", "decimal", "permuted", "big", "tol", "tol", "tol"]
 
 
 def generate(rng, tier):
-    n_cases, maxn = (220, 6) if tier == "quick" else (2400, 16)
+    n_cases, maxn = (280, 6) if tier == "quick" else (2800, 16)
     cases = []
     for _ in range(n_cases):
         cls = rng.choice(CLASSES)
